@@ -442,3 +442,14 @@ def trunc_json(o, limit=4000):
     if isinstance(o, str) and len(o) > limit:
         return o[:limit] + "...(%d chars)" % len(o)
     return o
+
+
+def build_ipputil(timeout=1800):
+    """build the real ipputil from /repo's working tree (target directory under /verif)"""
+    tdir = os.path.join(HARNESS, "target", "repo")
+    p = subprocess.run(["cargo", "build", "--offline", "--release", "-p", "ipp-util", "--manifest-path", "/repo/Cargo.toml",
+                        "--target-dir", tdir], stdout=subprocess.PIPE, stderr=subprocess.STDOUT, text=True, timeout=timeout)
+    if p.returncode != 0:
+        sys.stderr.write(p.stdout[-4000:])
+        raise ToolError("building ipputil from /repo failed")
+    return os.path.join(tdir, "release", "ipputil")
